@@ -400,7 +400,7 @@ def _invalid(ctx, rs, A, tl, tenalg):
     from tensorly.tt_matrix import TTMatrix, tt_matrix_to_tensor
     from tensorly import parafac2_tensor as p2
 
-    which = gen.choice(rs, ["cp-columns", "cp-weights", "cp-weights-2d", "tucker-cols", "tucker-count", "tt-boundary0", "tt-boundaryN", "tt-consecutive",
+    which = gen.choice(rs, ["cp-columns", "cp-columns-one", "cp-weights", "cp-weights-one", "cp-weights-2d", "tucker-cols", "tucker-count", "tt-boundary0", "tt-boundaryN", "tt-consecutive",
                             "tr-ring", "tr-consecutive", "ttm-boundary", "ttm-consecutive", "p2-count", "p2-width", "p2-nonorth", "p2-factor-cols"])
     order = int(rs.randint(3, 5))
     shp = gen.shape(rs, order, 2, 4)
@@ -416,6 +416,20 @@ def _invalid(ctx, rs, A, tl, tenalg):
         k = int(rs.randint(1, order))
         f[k] = A([shp[k], R + 1])
         attempts = [("CPTensor", lambda: CPTensor((None, f))), ("cp_to_tensor", lambda: cp_to_tensor((None, f)))]
+    elif which in ("cp-columns-one", "cp-weights-one"):
+        # the mismatch that broadcasting hides: one factor with a single column (or a single weight) in a rank-R set; every entry point
+        # has to reject it, also the ones that never multiply that factor with the others (the unfolding along its own mode)
+        R = max(R, 2)
+        f = [A([s, R]) for s in shp]
+        k = int(rs.randint(order))
+        w = None
+        if which == "cp-columns-one":
+            f[k] = A([shp[k], 1])
+        else:
+            w = A([1], "float64", "gauss")
+        import tensorly.cp_tensor as _cpm
+        attempts = [("CPTensor", lambda: CPTensor((w, f))), ("cp_to_tensor", lambda: cp_to_tensor((w, f))), ("cp_to_vec", lambda: _cpm.cp_to_vec((w, f)))] + [
+            ("cp_to_unfolded", (lambda m_: (lambda: _cpm.cp_to_unfolded((w, f), m_)))(m_)) for m_ in range(order)]
     elif which == "cp-weights":
         f = [A([s, R]) for s in shp]
         w = A([R + 1], "float64", "gauss")
